@@ -79,6 +79,7 @@ type Runner struct {
 	Infra     string
 	Cnt       map[string]int64
 	Traces    []uint64
+	opClock   []int64 // simulated time at which operation i began
 	StateHs   []uint64
 	step      int
 	judging   bool // the step in progress is one the property judges
